@@ -280,7 +280,20 @@ func VH07c_idseed() {
 	verif.Assert(err == nil, lab+"/open-context")
 	K := verif.Param("K", 3)
 	var prev []byte
+	var ids [][]byte   // wire ids of the requests so far
+	var dist []uint32  // counter distance of each of them to the current request
 	for i := 0; i < K; i++ {
+		// any number of requests (surveys) may have been issued meanwhile on other contexts of this socket
+		gap := verif.Uint32("ids-used-meanwhile")
+		verif.Assume(gap < 1<<28) // all requests of one run lie within one window of 2^31 allocations
+		if which == 1 {
+			req.ZZAddNextID(p, gap)
+		} else {
+			surveyor.ZZAddNextID(p, gap)
+		}
+		for j := range dist {
+			dist[j] += gap + 1
+		}
 		onCtx := verif.Choice("on-context", 2) == 1
 		tag := byte('a' + i)
 		if onCtx {
@@ -303,6 +316,12 @@ func VH07c_idseed() {
 			verif.Assert(!verif.BytesEq(prev, r.H), lab+"/consecutive-ids-equal")
 		}
 		prev = r.H
+		// ids are unique within any window of 2^31 allocations
+		for j := range ids {
+			verif.Assert(verif.Not(verif.BytesEq(ids[j], r.H)), lab+"/two-requests-less-than-2^31-allocations-apart-share-an-id")
+		}
+		ids = append(ids, r.H)
+		dist = append(dist, 0)
 		// the answer
 		p1.Deliver([]byte{r.H[0], r.H[1], r.H[2], r.H[3], 'r', tag})
 		verif.Quiesce()
@@ -601,5 +620,82 @@ func VH07e_burst() {
 	verif.Quiesce()
 	verif.Assert(!gx.Done(), lab+"/invented-or-stale-response-delivered")
 	verif.Reach("burst-epilogue")
+	sock.Close()
+}
+
+// VH07f_chain: R surveys in a row on one socket or context (R = 1..6, every
+// length a path), each superseding the previous one before it expired, each
+// possibly answered and the answer received or not. Then the survey time
+// passes. The LAST survey expires like any other: Recv fails with
+// ErrProtoState at once, a late response to it (or to any earlier survey of the
+// chain) is not delivered, and no expiry timer is left behind -- for the third,
+// fourth, ... survey of a chain exactly as for the first.
+func VH07f_chain() {
+	Rmax := verif.Param("R", 6)
+	lab := "C07/chain"
+	sock := vp.New("surveyor")
+	T := time.Second
+	verif.Assert(sock.SetOption(mangos.OptionSurveyTime, T) == nil, lab+"/set-survey-time")
+	side := vt.Listen(sock, "a")
+	p0 := side.Peer("r0")
+	s := &sv{name: "sock", sock: sock}
+	if verif.Choice("api", 2) == 1 {
+		c1, err := sock.OpenContext()
+		verif.Assert(err == nil, lab+"/open-context")
+		verif.Assert(c1.SetOption(mangos.OptionSurveyTime, T) == nil, lab+"/set-survey-time-ctx")
+		s = &sv{name: "ctx", c: c1}
+	}
+	R := 1 + verif.Choice("surveys", Rmax)
+	answered := verif.Choice("answered", 3) // none / every survey answered and received / answered but never received
+	var ids []uint32
+	var t0 time.Duration
+	for i := 0; i < R; i++ {
+		t0 = verif.Now()
+		verif.Assert(s.send([]byte{byte(i)}) == nil, lab+"/survey-send")
+		verif.Quiesce()
+		verif.Assert(len(p0.Sent) == i+1 && len(p0.Sent[i].H) == 4, lab+"/survey-not-sent-once")
+		if len(p0.Sent) != i+1 || len(p0.Sent[i].H) != 4 {
+			return
+		}
+		id := be32(p0.Sent[i].H)
+		for _, o := range ids {
+			verif.Assert(o != id, lab+"/survey-ids-distinct")
+		}
+		ids = append(ids, id)
+		if answered > 0 {
+			p0.Deliver([]byte{byte(id >> 24), byte(id >> 16), byte(id >> 8), byte(id), byte(100 + i)})
+			verif.Quiesce()
+			if answered == 1 {
+				m, err := s.recvMsg()
+				verif.Assert(err == nil && len(m.Body) == 1 && m.Body[0] == byte(100+i), lab+"/response-to-the-current-survey-not-delivered")
+			}
+		}
+	}
+	// the survey time passes
+	verif.RunClockTo(t0 + T)
+	verif.Quiesce()
+	var rerr error
+	var rm *mangos.Message
+	g := verif.Go("recv", func() { rm, rerr = s.recvMsg() })
+	verif.Quiesce()
+	verif.Assert(g.Done(), lab+"/recv-blocks-after-the-survey-expired")
+	if g.Done() {
+		if answered == 2 && rerr == nil {
+			// a response queued before the expiry may not be delivered afterwards either
+			verif.Fail(lab + "/response-delivered-after-the-survey-expired")
+		}
+		verif.Assert(rerr == mangos.ErrProtoState, lab+"/recv-after-expiry-must-be-ErrProtoState")
+	}
+	_ = rm
+	for _, id := range ids {
+		p0.Deliver([]byte{byte(id >> 24), byte(id >> 16), byte(id >> 8), byte(id), 'z'})
+	}
+	verif.Quiesce()
+	var e2 error
+	g2 := verif.Go("recv-late", func() { _, e2 = s.recvMsg() })
+	verif.Quiesce()
+	verif.Assert(g2.Done() && e2 == mangos.ErrProtoState, lab+"/late-response-delivered-after-the-survey-expired")
+	verif.Assert(verif.PendingCallbackTimers() == 0, lab+"/expiry-timer-left-behind")
+	verif.Reach("chain-expired")
 	sock.Close()
 }
